@@ -43,7 +43,7 @@ ASSUMPTIONS = [
     "(since fix a02f82b the former hypothesis db_stable is enforced by Executor._flag_inputs_not_final and proved)",
 ]
 
-from .p_c03_sigs import SIG_OTHER, SIG_RECONF, SIG_RERUN
+from .p_c03_sigs import SIG_OTHER, SIG_RECONF, SIG_RERUN, SIG_VALIDATE_LOOP
 
 
 def generate(ctx):
@@ -573,6 +573,7 @@ def checking_oracle(case, r, fails):
     if state == S_SUCCEEDED:
         if kind == 3:
             fails.append(("oracle:validate:succeeded", "validate_dynamic_job left the step SUCCEEDED", ev))
+            return
         if cancelled:
             fails.append(("oracle:cancel:checking:succeeded", "a cancelled hash computation left the step SUCCEEDED", ev))
         if not inp_same or changed or not all_available:
@@ -714,6 +715,61 @@ WITNESS_UNFRESH = {
 }
 
 
+_IDLE = {"before": [], "during": [], "chk_during": [], "cancel": [], "rc": 0, "write_out": True}
+# c amends the static file f02.txt; while the command runs the file vanishes and is recorded MISSING
+# (another step's failed pre-run check does this in a real build, see c03_sys.validate_loop_system);
+# c SUCCEEDS with a hash that does not list f02.txt but keeps the edge.  In the next build the output
+# was deleted: c is PENDING with its hash, gets a VALIDATE_DYNAMIC job, "digest unchanged" -> PENDING,
+# and is dispatched again with the same job (runs 2, 3, 4).
+WITNESS_VALIDATE_LOOP = {
+    "files": {"f01.txt": "conf", "f02.txt": "conf"}, "initial": ["f01.txt"], "static_owner": {}, "cap": 2,
+    "keep_going": False, "explain": True,
+    "runs": [dict(_IDLE, during=[["amend", ["f02.txt"]], ["write", "f02.txt", 0], ["confirm", "f02.txt"]]),
+             dict(_IDLE, before=[["newphase"], ["wout", 0], ["outcheck"]]), dict(_IDLE), dict(_IDLE)],
+}
+# try_skip_job: run once, made pending again with nothing changed -> skipped; output rewritten while
+# it is being checked -> not skipped; input rewritten -> FAILED and draining
+WITNESS_SKIP = {
+    "files": {"f01.txt": "conf", "f02.txt": "built"}, "initial": ["f01.txt", "f02.txt"], "static_owner": {}, "cap": 2,
+    "keep_going": True, "explain": False,
+    "runs": [dict(_IDLE), dict(_IDLE, before=[["repend"]]),
+             dict(_IDLE, before=[["repend"]], chk_during=[["wout", 77]]),
+             dict(_IDLE), dict(_IDLE, before=[["write", "f01.txt", 78], ["repend"]])],
+}
+
+
+def validate_loop_witness(ctx, fails):
+    """Replays WITNESS_VALIDATE_LOOP on the real Scheduler/Executor and records whether the same
+    VALIDATE_DYNAMIC job is handed out again and again."""
+    import os
+    from .c03_driver import run_case
+    case = asyncio.run(asyncio.wait_for(run_case(WITNESS_VALIDATE_LOOP), 120))
+    rs = case.runs
+    first_ok = rs[0].get("started") and rs[0]["state"] == S_SUCCEEDED
+    loops = [r for r in rs[1:] if r.get("kind") == 3 and r["state"] == S_PENDING and r["has_hash"] and not r["deferred"]]
+    ctx.case(("validate-loop-witness",), nontrivial=True)
+    ctx.stats["validate_loop_redispatches_api"] = len(loops) if first_ok else 0
+    from .c03_sys import validate_loop_system
+    try:
+        res = asyncio.run(asyncio.wait_for(validate_loop_system(), 90))
+    except asyncio.TimeoutError:
+        res = {"build2": "TIMEOUT"}
+    ctx.stats["validate_loop_system"] = {k: res.get(k) for k in ("build1_rc", "build2", "nvalidate")}
+    ctx.sample({"validate-loop-system": res})
+    looping = (first_ok and len(loops) == 3) or str(res.get("build2", "")).startswith("LOOP")
+    if looping:
+        ctx.notes.append("C03 observation (not a C03 violation; C10 termination): validate_dynamic_job 'digest unchanged' "
+                         "leaves the step PENDING, not deferred, with its hash; the same VALIDATE_DYNAMIC job is dispatched "
+                         f"again and again (API level: {len(loops)} of 3 re-dispatches; real serve(): {res.get('build2')}). "
+                         "See findings.d/C03-validate-loop.json.")
+        if os.environ.get("VERIF_C03_REPORT_LOOP") == "1":
+            fails.append((SIG_VALIDATE_LOOP,
+                          "validate_dynamic_job puts a step whose input digest is unchanged back to PENDING without "
+                          "`deferred`; the scheduler hands out the same VALIDATE_DYNAMIC job for ever "
+                          f"(real serve(): {res.get('build2')})",
+                          {"spec": WITNESS_VALIDATE_LOOP, "evidence": {"system": res}}))
+
+
 def report(ctx, fails):
     seen = set()
     for sig, detail, wit in fails:
@@ -725,7 +781,8 @@ def report(ctx, fails):
 
 def fixed_witnesses(ctx):
     """Replay of the Coq witnesses (props/C03.v *_refuted) and of basic expectations."""
-    specs = [WITNESS_RERUN, WITNESS_RECONF, WITNESS_RERUN_AMENDED, WITNESS_CHANGED, WITNESS_UNFRESH]
+    specs = [WITNESS_RERUN, WITNESS_RECONF, WITNESS_RERUN_AMENDED, WITNESS_CHANGED, WITNESS_UNFRESH,
+             WITNESS_VALIDATE_LOOP, WITNESS_SKIP]
     checks, descr, fails = run_consumer_cases(ctx, len(specs), specs=specs)
     bad = common.run_cases(ctx, "witness", HEADER, checks, chunk=40)
     for i in bad:
@@ -742,6 +799,16 @@ def fixed_witnesses(ctx):
                                f"must end PENDING (not deferred, no drain); observed state={r.get('state')} "
                                f"deferred={r.get('deferred')} draining={r.get('draining')}",
                           {"spec": spec, "evidence": {k: v for k, v in r.items() if k not in ("amend_verdicts",)}}))
+    # the CHECKING path on a fixed history: skipped, not skipped (output rewritten in the window), FAILED
+    case = asyncio.run(asyncio.wait_for(run_case(WITNESS_SKIP), 120))
+    got = [(r.get("kind"), r.get("state"), bool(r.get("has_hash"))) for r in case.runs]
+    want = [(1, S_SUCCEEDED, True), (2, S_SUCCEEDED, True), (2, S_PENDING, False), (1, S_SUCCEEDED, True),
+            (2, S_FAILED, False)]
+    ctx.case(("skip-witness",), nontrivial=True)
+    if got != want:
+        fails.append(("oracle:skip:fixed-witness", f"WITNESS_SKIP: expected (kind, state, has_hash) {want}, observed {got}",
+                      {"spec": WITNESS_SKIP, "evidence": {"runs": got}}))
+    validate_loop_witness(ctx, fails)
     return fails
 
 
